@@ -368,4 +368,179 @@ Proof.
     eapply Hafter; [exact Eg | apply Hrows; exact Hr].
 Qed.
 
+(* ------------------------------------------------------------------------------------------------ *)
+(* exception sets through action lists *)
+
+Lemma img_mono : forall a (X Y : cellset), (forall t c r, X t c r -> Y t c r) -> forall t c r, img O a X t c r -> img O a Y t c r.
+Proof. intros a X Y H t c r Hi. destruct a; cbn [img] in *; try (apply H; exact Hi); destruct Hi as [Hi|Hi]; [left | right | left | right]; intuition. Qed.
+
+Lemma img_list_mono : forall acts (X Y : cellset),
+  (forall t c r, X t c r -> Y t c r) -> forall t c r, img_list O acts X t c r -> img_list O acts Y t c r.
+Proof.
+  induction acts as [|a rest IH]; intros X Y H t c r Hi; cbn [img_list] in *; [apply H; exact Hi|].
+  eapply IH; [|exact Hi]. apply img_mono. exact H.
+Qed.
+
+Lemma img_or : forall a (X Y : cellset) t c r,
+  img O a (fun t c r => X t c r \/ Y t c r) t c r -> img O a X t c r \/ img O a Y t c r.
+Proof. intros a X Y t c r H. destruct a; cbn [img] in *; try exact H; intuition. Qed.
+
+Lemma img_list_or : forall acts (X Y : cellset) t c r,
+  img_list O acts (fun t c r => X t c r \/ Y t c r) t c r -> img_list O acts X t c r \/ img_list O acts Y t c r.
+Proof.
+  induction acts as [|a rest IH]; intros X Y t c r H; cbn [img_list] in *; [exact H|].
+  apply IH. eapply img_list_mono; [|exact H]. intros t1 c1 r1 H1. apply img_or. exact H1.
+Qed.
+
+Lemma img_list_app : forall l1 l2 (X : cellset), img_list O (l1 ++ l2) X = img_list O l2 (img_list O l1 X).
+Proof. induction l1 as [|a l1 IH]; intros l2 X; cbn [app img_list]; [reflexivity | apply IH]. Qed.
+
+(* ------------------------------------------------------------------------------------------------ *)
+(* columns: an action leaves the columns it does not touch alone, whatever their rows *)
+
+Definition colv (s : state) (t c : name) : option colinfo :=
+  match find_table O s t with
+  | Some T => match find_col O (t_cols O T) c with Some C => Some (c_info O C) | None => None end
+  | None => None
+  end.
+
+Definition touchc (a : action) (t c : name) : Prop :=
+  match a with
+  | BulkAddRecord _ _ _ _ | BulkRemoveRecord _ _ _ | BulkUpdateRecord _ _ _ _ => False
+  | ReplaceTableData _ t' _ _ => t = t'
+  | AddColumn _ t' c' _ => t = t' /\ c = c'
+  | RemoveColumn _ t' c' => t = t' /\ c = c'
+  | RenameColumn _ t' old new => t = t' /\ (c = old \/ c = new)
+  | ModifyColumn _ t' c' _ => t = t' /\ c = c'
+  | AddTable _ t' _ => t = t'
+  | RemoveTable _ t' => t = t'
+  | RenameTable _ old new => t = old \/ t = new
+  end.
+
+Lemma colv_put_other : forall s t0 T' t c, t_id O T' = t0 -> t <> t0 -> colv (put_table O s t0 T') t c = colv s t c.
+Proof.
+  intros s t0 T' t c Hid Hne. unfold colv. rewrite (find_put_table O) by exact Hid.
+  assert (name_eqb t t0 = false) as -> by (apply name_eqb_neq; exact Hne). reflexivity.
+Qed.
+
+Lemma colv_put_same : forall s t T T' c, find_table O s t = Some T -> t_id O T' = t ->
+  colv (put_table O s t T') t c = match find_col O (t_cols O T') c with Some C => Some (c_info O C) | None => None end.
+Proof.
+  intros s t T T' c Hf Hid. unfold colv. rewrite (find_put_table O) by exact Hid. rewrite name_eqb_refl, Hf. reflexivity.
+Qed.
+
+Lemma frame_col : forall a s s' o t c,
+  apply_doc O a s = Ok (s', o) -> is_rename a = false -> ~ touchc a t c -> colv s' t c = colv s t c.
+Proof.
+  intros a s s' o t c H Hren Hnt. destruct a; try discriminate; unfold apply_doc in H; cbn [touchc] in Hnt.
+  - destruct (find_table O s t0) as [T|] eqn:Ef; [|discriminate].
+    destruct (colvals_ok O rows cols) eqn:Eok; cbn [negb orb] in H; [|discriminate].
+    destruct (match rows with [] => true | _ => false end); [discriminate|].
+    destruct (negb (none_in rows (t_rows O T))); [discriminate|].
+    destruct (add_records O T rows cols) as [T'|] eqn:Ea; cbn in H; [|discriminate]. inversion H; subst s' o; clear H.
+    assert (Hnd : nodup_names (map fst cols) = true).
+    { unfold colvals_ok in Eok. apply andb_true_iff in Eok. destruct Eok as [Eok _]. apply andb_true_iff in Eok. apply Eok. }
+    destruct (add_records_spec O _ _ _ _ Hnd Ea) as [Hid [_ [_ Hcols]]].
+    pose proof (find_table_id O _ _ _ Ef) as HidT.
+    name_cases t t0; [|apply colv_put_other; congruence].
+    subst t. rewrite (colv_put_same _ _ T) by congruence. unfold colv. rewrite Ef. specialize (Hcols c).
+    destruct (find_col O (t_cols O T) c) as [C|]; [|rewrite Hcols; reflexivity].
+    destruct Hcols as [C' [Hf' [Hi' _]]]. rewrite Hf', Hi'. reflexivity.
+  - destruct (find_table O s t0) as [T|] eqn:Ef; [|discriminate].
+    pose proof (find_table_id O _ _ _ Ef) as HidT.
+    remember (filter (fun r => zmem r (t_rows O T)) rows) as rows' eqn:Er.
+    destruct (list_eq_dec Z.eq_dec rows' []) as [Hnil|Hne].
+    + rewrite Hnil in H. inversion H; subst. reflexivity.
+    + rewrite (match_nonnil _ _ rows' _ _ Hne) in H. inversion H; subst s' o; clear H.
+      name_cases t t0; [|apply colv_put_other; [exact HidT | congruence]].
+      subst t. rewrite (colv_put_same _ _ T) by (try exact Ef; exact HidT). unfold colv. rewrite Ef. cbn [t_cols].
+      rewrite (find_map_col O) by (intro; apply (col_unset_many_id O)).
+      destruct (find_col O (t_cols O T) c) as [C|]; cbn [option_map]; [|reflexivity].
+      rewrite (col_unset_many_info O). reflexivity.
+  - destruct (find_table O s t0) as [T|] eqn:Ef; [|discriminate].
+    pose proof (find_table_id O _ _ _ Ef) as HidT.
+    destruct (colvals_ok O rows cols) eqn:Eok; cbn [negb orb] in H; [|discriminate].
+    destruct (match rows with [] => true | _ => false end); [discriminate|].
+    destruct (negb (all_in rows (t_rows O T))); [discriminate|].
+    destruct (old_values O (t_cols O T) rows cols) as [ov|]; cbn in H; [|discriminate].
+    destruct (set_columns O (t_cols O T) rows cols) as [cs|] eqn:Ecs; cbn in H; [|discriminate]. inversion H; subst s' o; clear H.
+    assert (Hnd : nodup_names (map fst cols) = true).
+    { unfold colvals_ok in Eok. apply andb_true_iff in Eok. destruct Eok as [Eok _]. apply andb_true_iff in Eok. apply Eok. }
+    destruct (set_columns_spec O _ _ _ _ Hnd Ecs) as [_ Hcols].
+    name_cases t t0; [|apply colv_put_other; [exact HidT | congruence]].
+    subst t. rewrite (colv_put_same _ _ T) by (try exact Ef; exact HidT). unfold colv. rewrite Ef. cbn [t_cols].
+    specialize (Hcols c). destruct (find_col O (t_cols O T) c) as [C|]; [|rewrite Hcols; reflexivity].
+    destruct Hcols as [C' [Hf' [Hi' _]]]. rewrite Hf', Hi'. reflexivity.
+  - destruct (find_table O s t0) as [T|] eqn:Ef; [|discriminate].
+    pose proof (find_table_id O _ _ _ Ef) as HidT.
+    destruct (negb (colvals_ok O rows cols)); [discriminate|].
+    match type of H with context [add_records O ?T0 rows ?cs] => destruct (add_records O T0 rows cs) as [T'|] eqn:Ea end; cbn in H; [|discriminate].
+    inversion H; subst s' o; clear H.
+    apply colv_put_other; [|exact Hnt].
+    unfold add_records in Ea. match type of Ea with context [set_columns O ?a ?b ?c] => destruct (set_columns O a b c) end; cbn in Ea; [|discriminate].
+    inversion Ea; subst T'. cbn. exact HidT.
+  - destruct (find_table O s t0) as [T|] eqn:Ef; [|discriminate].
+    pose proof (find_table_id O _ _ _ Ef) as HidT.
+    destruct (has_column O T c0) eqn:Eh; [discriminate|]. inversion H; subst s' o; clear H.
+    name_cases t t0; [|apply colv_put_other; [exact HidT | congruence]].
+    subst t. assert (Hc : c <> c0) by tauto.
+    rewrite (colv_put_same _ _ T) by (try exact Ef; exact HidT). unfold colv. rewrite Ef. cbn [t_cols].
+    rewrite (find_app_col O). cbn [c_id]. assert (name_eqb c c0 = false) as -> by (apply name_eqb_neq; exact Hc).
+    destruct (find_col O (t_cols O T) c); reflexivity.
+  - destruct (find_table O s t0) as [T|] eqn:Ef; [|discriminate].
+    pose proof (find_table_id O _ _ _ Ef) as HidT.
+    destruct (find_col O (t_cols O T) c0) as [C0|] eqn:Ec0; [|discriminate].
+    assert (Hs' : s' = put_table O s t0 (mkTab O (t_id O T) (t_rows O T) (drop_col O (t_cols O T) c0))).
+    { match type of H with context [match ?l with [] => _ | _ => _ end] => destruct l end;
+        [|destruct (ci_isformula (c_info O C0))]; inversion H; reflexivity. }
+    subst s'. clear H.
+    name_cases t t0; [|apply colv_put_other; [exact HidT | congruence]].
+    subst t. assert (Hc : c <> c0) by tauto.
+    rewrite (colv_put_same _ _ T) by (try exact Ef; exact HidT). unfold colv. rewrite Ef. cbn [t_cols].
+    rewrite (find_drop_col O). assert (name_eqb c c0 = false) as -> by (apply name_eqb_neq; exact Hc). reflexivity.
+  - destruct (find_table O s t0) as [T|] eqn:Ef; [|discriminate].
+    pose proof (find_table_id O _ _ _ Ef) as HidT.
+    destruct (find_col O (t_cols O T) c0) as [C0|] eqn:Ec0; [|discriminate].
+    destruct (colinfo_eqb (apply_modinfo m (c_info O C0)) (c_info O C0)); inversion H; subst s' o; clear H; [reflexivity|].
+    name_cases t t0; [|apply colv_put_other; [exact HidT | congruence]].
+    subst t. assert (Hc : c <> c0) by tauto.
+    rewrite (colv_put_same _ _ T) by (try exact Ef; exact HidT). unfold colv. rewrite Ef. cbn [t_cols].
+    rewrite (find_app_col O), (find_drop_col O), (col_set_many_id O). cbn [c_id].
+    assert (name_eqb c c0 = false) as -> by (apply name_eqb_neq; exact Hc).
+    destruct (find_col O (t_cols O T) c); reflexivity.
+  - destruct (find_table O s t0) as [T|] eqn:Ef; [discriminate|].
+    destruct (_ || _); [discriminate|]. inversion H; subst s' o; clear H.
+    unfold colv. rewrite (find_app_table O). cbn [t_id].
+    assert (name_eqb t t0 = false) as -> by (apply name_eqb_neq; exact Hnt).
+    destruct (find_table O s t); reflexivity.
+  - destruct (find_table O s t0) as [T|] eqn:Ef; [|discriminate].
+    assert (Hs' : s' = drop_table O s t0) by (destruct (t_rows O T); inversion H; reflexivity).
+    subst s'. unfold colv. rewrite (find_drop_table O).
+    assert (name_eqb t t0 = false) as -> by (apply name_eqb_neq; exact Hnt). reflexivity.
+Qed.
+
+Lemma touchc_touch : forall a t c r, touchc a t c -> touch a t c r.
+Proof. intros a t c r H. destruct a; cbn in *; try contradiction; exact H. Qed.
+
+(* the rows a BulkRemoveRecord names are gone afterwards *)
+Lemma rmrec_gone : forall s t rows s' o c r,
+  apply_doc O (BulkRemoveRecord O t rows) s = Ok (s', o) -> In r rows -> cellv s' t c r = None.
+Proof.
+  intros s t rows s' o c r H Hr. unfold apply_doc in H.
+  destruct (find_table O s t) as [T|] eqn:Ef; [|discriminate].
+  pose proof (find_table_id O _ _ _ Ef) as HidT.
+  remember (filter (fun r => zmem r (t_rows O T)) rows) as rows' eqn:Er.
+  destruct (list_eq_dec Z.eq_dec rows' []) as [Hnil|Hne].
+  - rewrite Hnil in H. inversion H; subst s' o. unfold cellv. rewrite Ef.
+    destruct (find_col O (t_cols O T) c); [|reflexivity].
+    destruct (zmem r (t_rows O T)) eqn:Ez; [|reflexivity]. exfalso.
+    assert (In r rows') by (rewrite Er; apply filter_In; split; [exact Hr | exact Ez]). rewrite Hnil in H0. destruct H0.
+  - rewrite (match_nonnil _ _ rows' _ _ Hne) in H. inversion H; subst s' o; clear H.
+    rewrite (cellv_put_same _ _ T) by (try exact Ef; exact HidT). cbn [t_cols t_rows].
+    destruct (find_col O _ c); [|reflexivity].
+    destruct (zmem r (filter (fun r0 => negb (zmem r0 rows')) (t_rows O T))) eqn:Ez; [|reflexivity]. exfalso.
+    apply zmem_In in Ez. apply filter_In in Ez. destruct Ez as [Hin Hz]. apply negb_true_iff in Hz. apply zmem_false in Hz.
+    apply Hz. rewrite Er. apply filter_In. split; [exact Hr | apply zmem_In; exact Hin].
+Qed.
+
 End Frame.
